@@ -80,6 +80,7 @@ func (bs *BlockingStrategy) ProcessData(data map[string]any) {
 	if bs.stream.blockingTimeout <= 0 {
 		select {
 		case dataChan <- data:
+			bs.stream.signalData()
 		case <-bs.stream.done:
 		}
 		return
@@ -89,6 +90,7 @@ func (bs *BlockingStrategy) ProcessData(data map[string]any) {
 	defer timer.Stop()
 	select {
 	case dataChan <- data:
+		bs.stream.signalData()
 	case <-timer.C:
 		bs.stream.log.Warn("Data channel still full after %s, dropping input data", bs.stream.blockingTimeout)
 		bs.stream.mInputDropped.Inc()
@@ -203,6 +205,7 @@ func (ds *DropStrategy) ProcessData(data map[string]any) {
 		select {
 		case dataChan <- data:
 			timer.Stop()
+			ds.stream.signalData()
 			return
 		case <-timer.C:
 		case <-ds.stream.done:
